@@ -966,9 +966,11 @@ def c18_19(ctx):
             bits += [1] * (d >> 19) + [0] + [(d >> (18 - i)) & 1 for i in range(19)]
         bits += [0] * (-len(bits) % 8)
         body = bytes(int("".join(str(b) for b in bits[i:i + 8]), 2) for i in range(0, len(bits), 8))
-        return bytes([len(vals)]) + body
+        n_ = len(vals)
+        return (bytes([n_]) if n_ < 0xFD else b"\xfd" + n_.to_bytes(2, "little")) + body
     seqs = [("no value", []), ("one value", [4242]), ("two distant values", [7, 3000000]), ("adjacent values", [100, 101, 102]),
-            ("two equal values (two elements with one hash)", [5, 5]), ("equal values among others", [9, 31, 31, 31, 600000, 600000, 1500000])]
+            ("two equal values (two elements with one hash)", [5, 5]), ("equal values among others", [9, 31, 31, 31, 600000, 600000, 1500000]),
+            ("252 values (the last one-byte count)", [1000 * i + (i % 7) for i in range(252)]), ("253 values (the first count written with the fd prefix)", [1000 * i + (i % 5) for i in range(253)])]
     key = bytes(range(16))
     for label, vals in seqs:
         ctx.count("cells")
@@ -988,7 +990,7 @@ def c18_19(ctx):
                             fn, mod, key="filter-round-trip")]
         if h != hashlib.sha256(hashlib.sha256(data).digest()).digest():
             return [ctx.bad(spec, "a BIP158 filter with %s: hash() is not the double-SHA256 of the filter bytes" % label, fn, mod, key="filter-round-trip")]
-    return [ctx.ok(spec, "%d encodings (N = 0, 1, 2, 3, 7; distant, adjacent and equal values) parse and serialise back byte for byte; hash() is their double-SHA256" % len(seqs),
+    return [ctx.ok(spec, "%d encodings (N = 0, 1, 2, 3, 7, 252, 253; distant, adjacent and equal values) parse and serialise back byte for byte; hash() is their double-SHA256" % len(seqs),
                    fn, mod, key="filter-round-trip")]
 
 
